@@ -252,8 +252,18 @@ def run_case(case, ctx, sdir):
                             text = RDFWriter(list(docs), **kw).get_rdf_str(fmt)
                             back = RDFReader().from_string(text, fmt)
                         elif entry == "file":
-                            RDFWriter(list(docs), **kw).write_file(path, fmt)
-                            back = RDFReader().from_file(path, fmt)
+                            if case.get("i", 0) % 2:
+                                # a name with dots and without the format's extension: the writer appends it
+                                stem = os.path.join(sdir, "c10.2021-03-0%d" % (case.get("i", 0) % 7))
+                                RDFWriter(list(docs), **kw).write_file(stem, fmt)
+                                if not os.path.exists(stem + EXT[fmt]):
+                                    rec.violation("rdf/write_file/expected-file-missing", "%s: %s%s not written (directory: %r)" % (
+                                        cfg, os.path.basename(stem), EXT[fmt], sorted(os.listdir(sdir))[:6]), witness)
+                                    continue
+                                back = RDFReader().from_file(stem + EXT[fmt], fmt)
+                            else:
+                                RDFWriter(list(docs), **kw).write_file(path, fmt)
+                                back = RDFReader().from_file(path, fmt)
                         else:
                             if len(docs) > 1 or subc != "on":
                                 continue
